@@ -440,6 +440,15 @@ class Model(CallsMixin, BuiltinsMixin):
                     elif x.orth == 'cols' and len(y.dims) == 1 and \
                             y.orth == 'halfvec':
                         out.orth = 'half'
+                    elif x.orth in ('cols', 'rows') and y.orth == 'signvec':
+                        # np.sign(.) is 0 for a zero entry: a column / row of
+                        # an orthonormal factor may be wiped out
+                        out.orth = 'zeroed'
+                        self.site('O-sign', node, 'violation',
+                                  'an orthonormal factor is multiplied by '
+                                  'np.sign(...), which is 0 for a zero entry: '
+                                  'the factor loses a column / row for '
+                                  'rank-deficient input')
         if sym == '/' and a.has_const() and b.k == 'arr' and \
                 b.orth in ('sing', 'sigma'):
             out.orth = 'invsing'
